@@ -69,6 +69,12 @@ func extraSuite(name string, g *gen, e *emitter, n int) bool {
 		suiteStress(g, e, n)
 	case "allocs":
 		suiteAllocs(e, n > 1)
+	case "lexx":
+		suiteLexX(e, n)
+	case "acrhx":
+		suiteACRHX(e, n)
+	case "treex":
+		suiteTreeX(e, n)
 	default:
 		return false
 	}
